@@ -342,6 +342,18 @@ def _get_only_mach_data(data: List[DragDataPoint]) -> List[float]:
      "else self._config.max_calc_step_size_feet * (3.0 if self._config.cGravityConstant != -32.17405 else 1.0)\n"
      "        if step == 0:",
      "configuration-dependent: with a non-default gravity the integration step is 1.5x the configured maximum"),
+    ("c18-gravity-setting-ignored", "C18", TC,
+     "        self.gravity_vector: Vector = Vector(.0, self._config.cGravityConstant, .0)\n",
+     "        self.gravity_vector: Vector = Vector(.0, -32.17405, .0)\n",
+     "a setting that is silently ignored (both sides of the solo oracle ignore it alike: needs the vacuum gravity trace)"),
+    ("c18-iteration-cap-setting-ignored", "C18", TC,
+     "        _cMaxIterations = self._config.cMaxIterations\n",
+     "        _cMaxIterations = max(self._config.cMaxIterations, 20)\n",
+     "iteration caps below the default are silently ignored"),
+    ("c18-min-velocity-setting-floor", "C18", TC,
+     "        _cMinimumVelocity = self._config.cMinimumVelocity\n",
+     "        _cMinimumVelocity = min(self._config.cMinimumVelocity, 1000.0)\n",
+     "minimum-velocity limits above 1000 fps are silently capped"),
 ]
 
 
